@@ -165,3 +165,69 @@ Definition check_cdp_valueerror (base : list (sdesc m2)) (factors : list sid) (h
 
 Definition product_sid (base : list (sdesc m2)) (factors : list sid) (herm : bool) : nat :=
   match cauchy_dot_product base factors herm with None => 0%nat | Some (_, p) => p end.
+
+(* ---- NumPy indexing spec and BlockSeries.__getitem__ -------------------- *)
+Require Import PV.PySeries.Index PV.PySeries.GetItem.
+
+Definition ixerr_eqb (a b : ixerr) : bool :=
+  match a, b with
+  | EIndex, EIndex => true | EValue, EValue => true | EType, EType => true
+  | _, _ => false
+  end.
+
+Definition natlist_eqb (a b : list nat) : bool := list_eqb Nat.eqb a b.
+
+Definition check_np_index (shape : list nat) (item : list ix)
+           (expected : ixres (list nat * list (list nat))) : bool :=
+  match np_index shape item, expected with
+  | IOk (s1, p1), IOk (s2, p2) => natlist_eqb s1 s2 && list_eqb natlist_eqb p1 p2
+  | IErr a, IErr b => ixerr_eqb a b
+  | _, _ => false
+  end.
+
+Definition check_np_scalar (shape : list nat) (item : list ix) (expected : bool) : bool :=
+  Bool.eqb (np_scalar shape item) expected.
+
+(* elements of the series of k_getitem: tagged integers and the sentinels *)
+Definition xv := sval Z.
+Definition xv_eqb : xv -> xv -> bool := sval_eqb Z.eqb.
+Definition xv_zero (x : xv) : bool := is_zero x.
+Definition xv_default : xv := SVal (-999)%Z.
+
+Definition bv := bval xv.
+Definition bv_eqb (a b : bv) : bool :=
+  match a, b with
+  | BElem x, BElem y => xv_eqb x y
+  | BArr s1 v1, BArr s2 v2 => natlist_eqb s1 s2 && list_eqb xv_eqb v1 v2
+  | _, _ => false
+  end.
+
+Definition bobs_eqb (a b : bobs xv) : bool :=
+  match a, b with
+  | OScalar x, OScalar y => bv_eqb x y
+  | OArray s1 v1 m1, OArray s2 v2 m2 =>
+      natlist_eqb s1 s2 && list_eqb bv_eqb v1 v2 && list_eqb Bool.eqb m1 m2
+  | OView s1 sh1, OView s2 sh2 => Nat.eqb s1 s2 && natlist_eqb sh1 sh2
+  | OExc x, OExc y => exn_eqb x y
+  | OContains x, OContains y => Bool.eqb x y
+  | OPopped None, OPopped None => true
+  | OPopped (Some x), OPopped (Some y) => entry_eqb bv_eqb x y
+  | _, _ => false            (* OFuel never matches *)
+  end.
+
+Definition binit_world (data : list (list (index * xv))) : world bv :=
+  mkWorld (fun s => map (fun p => (fst p, Done (BElem (snd p)))) (nth s data [])) [].
+
+Definition check_getitem (descs : list (bdesc xv)) (data : list (list (index * xv)))
+           (fuel : nat) (script : list breq)
+           (exp_obs : list (bobs xv))
+           (log_sids : list sid)
+           (exp_calls : list (sid * index))
+           (exp_keys : list (sid * list index)) : bool :=
+  match bs_script xv_zero xv_default fuel descs script (binit_world data) with
+  | (os, _, w) =>
+      list_eqb bobs_eqb os exp_obs
+      && list_eqb call_eqb
+           (filter (fun c => existsb (Nat.eqb (fst c)) log_sids) (eval_calls w)) exp_calls
+      && forallb (fun sk => keyset_eqb (keys (wcache w (fst sk))) (snd sk)) exp_keys
+  end.
